@@ -641,6 +641,83 @@ fn synthetic(g: &mut SplitMix64, thorough: bool) -> Inst {
     Inst { nvars, state, man, bonds, frozen, origin: "synthetic" }
 }
 
+/// Replace some multi-variable ops of the instance, through the public `mutate_ops`, by the same op on the REVERSED
+/// variable list (bond = a reversed copy of the bond, matrix permuted accordingly, so weights are the same): what an RVB
+/// sweep does on a graph with a reversed duplicate edge. Ops that are first / last on one of their world lines are
+/// preferred (the boundary bookkeeping of the cluster update reads `op.get_vars()[relvar]` there).
+fn reverse_some_ops(inst: &Inst, g: &mut SplitMix64) -> Option<Inst> {
+    let before = snap(&inst.man);
+    let multi: Vec<usize> = (0..before.len()).filter(|p| before[*p].as_ref().map_or(false, |o| o.vars.len() >= 2)).collect();
+    if multi.is_empty() {
+        return None;
+    }
+    // first and last op of every world line
+    let mut pref: Vec<usize> = vec![];
+    for v in 0..inst.nvars {
+        let on_v: Vec<usize> = multi.iter().cloned().filter(|p| before[*p].as_ref().unwrap().vars.contains(&v)).collect();
+        let all_v: Vec<usize> = (0..before.len()).filter(|p| before[*p].as_ref().map_or(false, |o| o.vars.contains(&v))).collect();
+        if let (Some(f), Some(l)) = (all_v.first(), all_v.last()) {
+            if on_v.contains(f) {
+                pref.push(*f);
+            }
+            if on_v.contains(l) {
+                pref.push(*l);
+            }
+        }
+    }
+    let mut chosen: Vec<usize> = vec![];
+    for _ in 0..g.range(1, 3) {
+        let p = if !pref.is_empty() && g.chance(3, 4) { *g.pick(&pref) } else { *g.pick(&multi) };
+        if !chosen.contains(&p) {
+            chosen.push(p);
+        }
+    }
+    let mut bonds = inst.bonds.clone();
+    let mut rev_of: BTreeMap<usize, usize> = BTreeMap::new();
+    let mut man = inst.man.clone();
+    for &p in &chosen {
+        let o = before[p].as_ref().unwrap();
+        let k = o.vars.len();
+        let rb = *rev_of.entry(o.bond).or_insert_with(|| {
+            let tb = &inst.bonds[o.bond];
+            let mut mat = vec![0.0; tb.mat.len()];
+            for outs in patterns(k) {
+                for ins in patterns(k) {
+                    let (ro, ri): (Vec<bool>, Vec<bool>) = (outs.iter().rev().cloned().collect(), ins.iter().rev().cloned().collect());
+                    mat[bit_index(ro.iter().chain(ri.iter()))] = tb.mat[bit_index(outs.iter().chain(ins.iter()))];
+                }
+            }
+            bonds.push(TableBond { vars: tb.vars.iter().rev().cloned().collect(), constant: tb.constant, mat });
+            bonds.len() - 1
+        });
+        let vars: Vec<usize> = o.vars.iter().rev().cloned().collect();
+        let ins: Vec<bool> = o.ins.iter().rev().cloned().collect();
+        let outs: Vec<bool> = o.outs.iter().rev().cloned().collect();
+        let (diag, constant) = (o.diag, o.constant);
+        let cutoff = man.get_cutoff();
+        man.mutate_ops(0, cutoff, (), |_, _op, q, _| {
+            if q == p {
+                let new_op = if diag {
+                    FastOp::diagonal(vars.clone(), rb, ins.clone(), constant)
+                } else {
+                    FastOp::offdiagonal(vars.clone(), rb, ins.clone(), outs.clone(), constant)
+                };
+                (Some(Some(new_op)), ())
+            } else {
+                (None, ())
+            }
+        });
+    }
+    // the string as read back through get_pth must carry the reversed lists
+    let after = snap(&man);
+    for &p in &chosen {
+        let (b, a) = (before[p].as_ref().unwrap(), after[p].as_ref().unwrap());
+        assert!(a.vars.iter().rev().eq(b.vars.iter()), "mutate_ops did not install the reversed op at p={}", p);
+    }
+    stat("synthetic.reversed_ops", chosen.len());
+    Some(Inst { man, bonds, origin: "synthetic_reversed", ..inst.clone() })
+}
+
 // ---------------------------------------------------------------------------------------------
 // equilibrium strings from the real samplers
 // ---------------------------------------------------------------------------------------------
@@ -682,6 +759,9 @@ fn ising_tables(gr: &G) -> Vec<TableBond> {
 struct IsingSetup {
     gr: G,
     rng: SharedRng,
+    /// the graph holds a reversed duplicate edge ((a,b,J) and (b,a,-J')): RVB sweeps rotate bond ops between the two
+    /// copies, i.e. replace an op in place by one on the same spins in the opposite order
+    rvb: bool,
 }
 
 fn ising_graph(g: &mut SplitMix64, thorough: bool) -> (IsingSetup, f64) {
@@ -701,12 +781,21 @@ fn ising_graph(g: &mut SplitMix64, thorough: bool) -> (IsingSetup, f64) {
         let e = edges[0];
         edges.push(e); // multi-edge
     }
+    let rvb = g.chance(2, 5);
+    if rvb {
+        // reversed duplicates of opposite sign (same magnitude: the RVB rotation needs |J| equal)
+        let k = g.range(1, 2) as usize;
+        for i in 0..k.min(edges.len()) {
+            let ((a, b), j) = edges[i];
+            edges.push(((b, a), -j));
+        }
+    }
     let transverse = *g.pick(&[0.5, 1.0, 0.25, 2.0]);
     let longitudinal = *g.pick(&[0.0, 0.0, 0.5, -0.5, 1.0, -0.25]);
     let beta = *g.pick(&[0.25, 0.5, 1.0, 2.0, 3.0, 4.0, 6.0]);
     let rng = SharedRng::new(g.next());
     let gr = G::new_with_rng(edges, transverse, longitudinal, 4, rng.clone(), None);
-    (IsingSetup { gr, rng }, beta)
+    (IsingSetup { gr, rng, rvb }, beta)
 }
 
 fn ising_inst(s: &IsingSetup) -> Inst {
@@ -869,9 +958,14 @@ fn ising_runs(g: &mut SplitMix64, thorough: bool, ngraphs: usize) {
         for round in 0..rounds {
             let warm = if round == 0 { g.range(0, 6) } else { g.range(1, 8) };
             let diag_last = g.coin();
+            let use_rvb = s.rvb;
+            let rvb_last = use_rvb && g.chance(2, 3);
             let warmed = {
                 let gr = &mut s.gr;
                 catch(|| {
+                    if use_rvb {
+                        gr.set_run_rvb(true);
+                    }
                     for _ in 0..warm {
                         gr.timestep(beta);
                     }
@@ -879,8 +973,16 @@ fn ising_runs(g: &mut SplitMix64, thorough: bool, ngraphs: usize) {
                     if diag_last {
                         gr.single_diagonal_step(beta);
                     }
+                    // … or right after RVB sweeps (bond ops rotated onto the reversed copy of their edge)
+                    if rvb_last {
+                        gr.single_rvb_sweep(None);
+                        gr.single_rvb_sweep(None);
+                    }
                 })
             };
+            if use_rvb {
+                stat("ising.rvb_warmups", 1);
+            }
             s.rng.take_log();
             if let Err(e) = warmed {
                 // e.g. debug_assert!(self.verify()) inside timestep
@@ -899,7 +1001,7 @@ fn ising_runs(g: &mut SplitMix64, thorough: bool, ngraphs: usize) {
             }
             // the real entry point: all-reject, then random (state evolves)
             let n = inst.man.get_n();
-            let mut clone = IsingSetup { gr: s.gr.clone(), rng: s.rng.clone() };
+            let mut clone = IsingSetup { gr: s.gr.clone(), rng: s.rng.clone(), rvb: s.rvb };
             step_case(&mut clone, reject_words(g, 4 * n + 2 * inst.nvars + 8), g, true);
             step_case(&mut s, vec![], g, false);
             let n = s.gr.get_manager_ref().get_n();
@@ -1316,6 +1418,17 @@ fn main() {
                 stat(&format!("synthetic.nclusters_{}", if ncl >= 8 { "8+".to_string() } else { ncl.to_string() }), 1);
                 if ncl <= (if a.thorough { 40 } else { 24 }) {
                     single_cases(&inst, ncl, &mut g);
+                }
+            }
+            // the same string after some ops were replaced in place by their reversed-variable twins
+            if g.chance(1, 3) {
+                if let Some(inst2) = reverse_some_ops(&inst, &mut g) {
+                    let ncl2 = direct_cases(&inst2, &mut g, 3);
+                    if let Some(ncl2) = ncl2 {
+                        if ncl2 <= 24 {
+                            single_cases(&inst2, ncl2, &mut g);
+                        }
+                    }
                 }
             }
         }
